@@ -80,16 +80,32 @@ func buildC11(c *CheckCtx) {
 }
 
 func buildC15(c *CheckCtx) {
-	c.Technique = "per-kind printer contracts: symbolic trace of each of the 155 printer methods over go/ssa (helpers by contract), compared against the slot set from go/types"
+	c.Technique = "per-kind printer contracts: symbolic trace of each of the 155 printer methods over go/ssa (helpers by contract), compared against the slot set from go/types; order against the grammars by E-GRAM conserve obligations"
 	kinds := astKinds(c.W)
+	// order consistent with the grammar: every action of both grammars conserves the yield computed by the real printer
+	// method (E-GRAM conserve); these obligations belong to C15 too ("in source order")
+	runs := c.addGram(gramWant{Shape: true, Conserve: true})
+	c.OrderByGrammar = map[string]bool{}
+	for _, r := range runs {
+		if r != nil && r.Res != nil {
+			for k := range r.Res.KindsBuilt {
+				c.OrderByGrammar[k] = true
+			}
+		}
+	}
 	c.checkPrinter(kinds)
 	c.CoverageExtra["kinds"] = len(kinds)
+	var notBuilt []string
+	for _, k := range kinds {
+		if !c.OrderByGrammar[k.Name] && !(k.Named != nil && c.OrderByGrammar[k.Named.Obj().Name()]) {
+			notBuilt = append(notBuilt, k.Name)
+		}
+	}
+	c.CoverageExtra["kinds_not_built_by_any_action"] = notBuilt
 	// default lexemes against the terminals the grammars store in each slot
-	sub := &CheckCtx{Prop: c.Prop, W: c.W, Assume: map[string]bool{}, Trusted: map[string]bool{}, CoverageExtra: map[string]interface{}{}}
-	runs := sub.addGram(gramWant{Shape: true}) // only for the slot-terminal table; its obligations belong to C01/C02
 	c.checkDefaultLexemes(kinds, runs)
-	c.assume("the trace extractor and comparison (E-TRACE normaliser) are part of the trusted base; SMT plays no role for this property")
-	c.assume("source order of a node's parts = declared field order of its struct in pkg/ast/node.go (the file's convention, confirmed for all kinds on the pinned tree); the grammar-side check of the same order is E-GRAM conserve (C02)")
+	c.assume("the trace extractor and comparison (E-TRACE normaliser) are part of the trusted base")
+	c.assume("source order of a node's parts: decided by the grammar-side conserve obligations (the printed yield of a node equals the concatenation of the yields of the right-hand side, for every action of both grammars); the declared field order of the struct in pkg/ast/node.go is compared as well, but a kind whose fields are declared in another order is accepted when some action builds it (noted in the evidence)")
 }
 
 func buildC12(c *CheckCtx) {
